@@ -43,14 +43,15 @@ def gen_nth(rng, tier):
         n = rng.randint(0, 60)
         b = i - a * n
     elif r < 0.70:
-        # wrap-around zone: i - b >= 2^31, i.e. b <= i - 2^31 (b very negative)
+        # zone where i - b does not fit an i32 (wrapped around before /repo 614f5b5):
+        # i - b >= 2^31, i.e. b <= i - 2^31 (b very negative)
         b = I32_MIN + rng.randint(0, max(0, i - 1))
         d = i - b                       # true difference, in [2^31, 2^31 + i)
-        w = d - 2**32                   # what wrapping_sub produces (negative)
+        w = d - 2**32                   # what the old wrapping_sub produced (negative)
         k = rng.random()
         if k < 0.35:                    # positive divisor of the true difference -> CSS matches
             a = rng.choice(divisors(d, rng))
-        elif k < 0.70:                  # negative divisor of the wrapped value -> code matches
+        elif k < 0.70:                  # negative divisor of the wrapped value -> the old code matched
             a = -rng.choice(divisors(-w, rng))
         elif k < 0.85:
             a = rng.choice([1, -1, 2, -2, 0, I32_MIN, I32_MAX])
